@@ -24,7 +24,7 @@ pvars == <<l, st, ex, flow, hist, ended>>
 
 Regs16 == {"RAX","RBX","RCX","RDX","RSI","RDI","RSP","RBP","R8","R9","R10","R11","R12","R13","R14","R15"}
 Flags7 == {"cf", "pf", "af", "zf", "sf", "df", "of"}
-St0 == [r |-> [n \in Regs16 |-> Z8], x |-> <<>>, f |-> [n \in Flags7 |-> 0], fs |-> Z8, gs |-> Z8, rip |-> Z8, ov |-> <<>>]
+St0 == [r |-> [n \in Regs16 |-> Z8], x |-> <<>>, f |-> [n \in Flags7 |-> 0], fs |-> Z8, gs |-> Z8, rip |-> Z8, ov |-> <<>>, xa |-> <<>>, rsp0 |-> Z8]
 Ex0 == [count |-> 0, finished |-> FALSE, code_end |-> 0, hasstack |-> FALSE, depth |-> 0, max |-> NoLimit, rip |-> 0]
 TraceInit == l = 1 /\ st = St0 /\ ex = Ex0 /\ flow = <<>> /\ hist = <<>> /\ ended = "running"
 
@@ -51,17 +51,23 @@ PJudge(e, x) ==
   ELSE {"out-" \o e.out}
 
 \* loop-level view of an instruction (Exec.tla annotation) derived from the descriptor and the architectural step
+\* "the stack is empty" is a statement about the stack pointer (Exec.tla): with a stack set up by init_stack, the height is 0
+\* iff RSP holds the value init_stack gave it (st.rsp0)
+ExH == [ex EXCEPT !.depth = IF ex.hasstack /\ st.r["RSP"] = st.rsp0 THEN 0 ELSE 1]
+TopRet(i) == i.m = "ret" /\ ex.hasstack /\ st.r["RSP"] = st.rsp0
+\* a top-level RET ends the run: nothing is popped, no register or memory byte changes, RIP stays behind the instruction
+TopRetStep(i) == Done(st, i, st.r, st.x, <<>>, NoFx, Next8(st, i), {})
 Kind(i) == IF i.m \in JccSet THEN "jcc" ELSE IF i.m \in {"jmp", "call", "ret"} THEN i.m ELSE "plain"
 Ann(i, x) == [kind |-> Kind(i), ip |-> ToInt(st.rip), next |-> ToInt(Next8(st, i)), target |-> ToInt(x.rip),
               cc |-> IF i.m \in JccSet THEN (IF i.m = "jrcxz" THEN "rcxz" ELSE IF i.m = "jecxz" THEN "ecxz" ELSE CcOf(i.m)) ELSE "",
               mnem |-> i.m]
 ExecBad(e, i, x) ==
-  LET a == Ann(i, x) s2 == Effect(ex, a, FlagsRec(st)) IN
+  LET a == Ann(i, x) s2 == Effect(ExH, a, FlagsRec(st)) IN
   IF e.out # "ok" THEN (IF e.count # ex.count \/ e.finished # ex.finished THEN {"C11:failed-step-changed-count"} ELSE {})
   ELSE IF x.out # "ok" THEN {}       \* completed where the specification faults: reported as out-missing-fault, nothing to compare
   ELSE (IF e.count # s2.count THEN {"C11:count"} ELSE {})
        \cup (IF e.finished # s2.finished THEN {"C11:finished"} ELSE {})
-       \cup (IF e.trace # Compress(flow \o FlowEvent(ex, a, FlagsRec(st))) THEN {"C18:trace-log"} ELSE {})
+       \cup (IF e.trace # Compress(flow \o FlowEvent(ExH, a, FlagsRec(st))) THEN {"C18:trace-log"} ELSE {})
 
 StackM == {"push", "pop", "call", "ret"}
 StepEv(e) ==
@@ -69,6 +75,7 @@ StepEv(e) ==
   IF e.out = "crash" THEN {"out-crash"}            \* whatever the instruction (also an unfetchable one): a step never crashes the host
   ELSE IF e.carry # st.r THEN {"harness-pre-state-differs-from-carried-state"}
   ELSE IF i.m \notin Known THEN {}
+  ELSE IF TopRet(i) THEN PJudge(e, TopRetStep(i)) \cup ExecBad(e, i, TopRetStep(i))
   ELSE LET x == Step(st, i, PPostR(e))
            b == PJudge(e, x)
            d == b # {} /\ i.m \in StackM /\ PJudge(e, StepD(st, i, TRUE, PPostR(e))) = {}
@@ -106,7 +113,8 @@ FinalEv(e) ==
 Next == /\ l <= Len(Rec)
         /\ LET e == Rec[l] IN
            IF e.ev = "reset"
-           THEN LET s0 == [r |-> e.pre.r, x |-> e.pre.x, f |-> e.pre.f, fs |-> e.pre.fs, gs |-> e.pre.gs, rip |-> e.pre.rip, ov |-> e.pre.ov]
+           THEN LET s0 == [r |-> e.pre.r, x |-> e.pre.x, f |-> e.pre.f, fs |-> e.pre.fs, gs |-> e.pre.gs, rip |-> e.pre.rip, ov |-> e.pre.ov,
+                           xa |-> e.xa, rsp0 |-> e.pre.r["RSP"]]
                     x0 == [Ex0 EXCEPT !.code_end = e.code_end, !.hasstack = e.hasstack, !.rip = ToInt(e.pre.rip)]
                     f0 == <<[ip |-> 0, target |-> ToInt(e.pre.rip), var |-> "call"]>>
                 IN st' = s0 /\ ex' = x0 /\ flow' = f0 /\ hist' = <<[st |-> s0, ex |-> x0, flow |-> f0, mh |-> e.mh]>> /\ ended' = "running"
@@ -116,7 +124,7 @@ Next == /\ l <= Len(Rec)
                     x1 == [ex EXCEPT !.count = e.count, !.finished = e.finished, !.rip = ToInt(e.post.rip),
                                      !.depth = IF e.out = "ok" /\ i.m = "call" THEN ex.depth + 1
                                                ELSE IF e.out = "ok" /\ i.m = "ret" /\ ~e.finished THEN ex.depth - 1 ELSE ex.depth]
-                    f0 == IF e.out = "ok" /\ i.m \in Known THEN flow \o FlowEvent(ex, Ann(i, [rip |-> e.post.rip]), FlagsRec(st)) ELSE flow
+                    f0 == IF e.out = "ok" /\ i.m \in Known THEN flow \o FlowEvent(ExH, Ann(i, [rip |-> e.post.rip]), FlagsRec(st)) ELSE flow
                     \* after a reported log mismatch the history is resynchronised with the observed log (one verdict per defect)
                     f1 == IF e.trace # Compress(f0) THEN Decompress(e.trace) ELSE f0
                 IN /\ IF b = {} THEN TRUE ELSE PrintT(<<"VERDICT", e.c, e.n, e.i.code, b>>)
